@@ -1,0 +1,25 @@
+//go:build verif
+
+package bmc
+
+import (
+	"time"
+
+	"github.com/gebn/bmc/internal/pkg/transport"
+
+	"github.com/cenkalti/backoff/v4"
+)
+
+// NewV2SessionlessTransportForVerif builds a V2SessionlessTransport over a
+// caller-supplied transport, exactly as DialV2 does after opening its socket.
+// If b is non-nil, it replaces the back-off shared by the session-less
+// connection and all sessions created from it. This file is only compiled with
+// the verif build tag; it exists so verification harnesses can drive the
+// library over an in-memory transport without waiting for wall-clock back-off.
+func NewV2SessionlessTransportForVerif(t transport.Transport, timeout time.Duration, b backoff.BackOff) *V2SessionlessTransport {
+	s := newV2SessionlessTransport(t, &dialConfig{timeout: timeout})
+	if b != nil {
+		s.V2Sessionless.backoff = b
+	}
+	return s
+}
